@@ -68,6 +68,15 @@ func runC01(cfg *Config) *Report {
 		x := uint64(r.Intn(nv))
 		ctr := uint64(nv + r.Intn(3))
 		kind := r.Intn(10)
+		// terms have a life before they are unified: some have been printed (String, %v), which says nothing about what they are
+		switch r.Intn(6) {
+		case 0:
+			_ = u.String()
+			v = rebuildTerm(v) // the other side is made of atoms of its own, never printed
+		case 1:
+			u = rebuildTerm(u)
+			_ = fmt.Sprintf("%v %v", v, s)
+		}
 		if cfg.Only >= 0 && cfg.Only != i {
 			cf.add("CWalk 0%N [] (TVar 0%N)")
 			rep.CaseDesc = append(rep.CaseDesc, "")
@@ -222,4 +231,28 @@ func runC01(cfg *Config) *Report {
 	}
 	cf.write(cfg.Out)
 	return rep
+}
+
+// rebuildTerm builds the same term again with the exported constructors: new pairs, new atoms (variables keep their index and
+// name; the one NaN atom of the pools stays the one it is, see terms.go).
+func rebuildTerm(t *ast.SExpr) *ast.SExpr {
+	switch {
+	case t == nil:
+		return nil
+	case t.Pair != nil:
+		return ast.Cons(rebuildTerm(t.Pair.Car), rebuildTerm(t.Pair.Cdr))
+	case t.Atom == nil || t == nanAtom:
+		return t
+	case t.Atom.Var != nil:
+		return ast.NewVar(t.Atom.Var.Name, t.Atom.Var.Index)
+	case t.Atom.Symbol != nil:
+		return ast.NewSymbol(*t.Atom.Symbol)
+	case t.Atom.Str != nil:
+		return ast.NewString(*t.Atom.Str)
+	case t.Atom.Int != nil:
+		return ast.NewInt(*t.Atom.Int)
+	case t.Atom.Float != nil:
+		return ast.NewFloat(*t.Atom.Float)
+	}
+	return t
 }
